@@ -387,38 +387,41 @@ func variantHeaders(t *rapid.T) []gen.HeaderKV {
 	return out
 }
 
-func TestPropRoundTrip(t *testing.T) {
-	prop.Rapid(t, func(t *rapid.T) Case {
-		s := sxgkit.GenSpec(t)
-		c := Case{Spec: *s, Conforming: true, ReadMode: gen.DrawSourceMode(t, "readmode")}
-		if rapid.IntRange(0, 3).Draw(t, "usedsigner") == 0 {
-			c.UsedSigner = rapid.SampledFrom([]string{"1b1", "1b2", "1b3"}).Draw(t, "priorversion")
+func TestPropRoundTrip(t *testing.T) { prop.Rapid(t, genPropRoundTrip) }
+
+// TestConcRoundTrip: batches of cases evaluated at the same time on separate goroutines (vh.Prop.Concurrent).
+func TestConcRoundTrip(t *testing.T) { prop.Concurrent(t, genPropRoundTrip, 8, 3) }
+
+func genPropRoundTrip(t *rapid.T) Case {
+	s := sxgkit.GenSpec(t)
+	c := Case{Spec: *s, Conforming: true, ReadMode: gen.DrawSourceMode(t, "readmode")}
+	if rapid.IntRange(0, 3).Draw(t, "usedsigner") == 0 {
+		c.UsedSigner = rapid.SampledFrom([]string{"1b1", "1b2", "1b3"}).Draw(t, "priorversion")
+	}
+	switch rapid.IntRange(0, 9).Draw(t, "variant") {
+	case 0, 1:
+		c.Spec.ResHeaders = append(c.Spec.ResHeaders, variantHeaders(t)...)
+		c.Conforming = false
+	case 2:
+		// an extra value for Content-Type (multi-valued)
+		c.Spec.ResHeaders = append(c.Spec.ResHeaders, gen.HeaderKV{Name: "content-TYPE", Values: []string{"text/plain"}})
+	case 4:
+		if c.Spec.Version == "1b1" {
+			c.PresetDigest = rapid.SampledFrom([]string{"MI-Draft2", "Mi-Draft2", "mi-draft2", "twice"}).Draw(t, "presetdigest")
+		} else {
+			c.PresetDigest = rapid.SampledFrom([]string{"Digest", "digest", "DIGEST", "twice"}).Draw(t, "presetdigest")
 		}
-		switch rapid.IntRange(0, 9).Draw(t, "variant") {
-		case 0, 1:
-			c.Spec.ResHeaders = append(c.Spec.ResHeaders, variantHeaders(t)...)
-			c.Conforming = false
-		case 2:
-			// an extra value for Content-Type (multi-valued)
-			c.Spec.ResHeaders = append(c.Spec.ResHeaders, gen.HeaderKV{Name: "content-TYPE", Values: []string{"text/plain"}})
-		case 4:
-			if c.Spec.Version == "1b1" {
-				c.PresetDigest = rapid.SampledFrom([]string{"MI-Draft2", "Mi-Draft2", "mi-draft2", "twice"}).Draw(t, "presetdigest")
-			} else {
-				c.PresetDigest = rapid.SampledFrom([]string{"Digest", "digest", "DIGEST", "twice"}).Draw(t, "presetdigest")
-			}
-		case 3:
-			c.Colliding = true
-			for i := 0; i < 8; i++ {
-				c.Spec.ResHeaders = append(c.Spec.ResHeaders, gen.HeaderKV{Name: fmt.Sprintf("X-Pad-%d", i), Values: []string{"p"}})
-			}
-			c.Spec.ResHeaders = append(c.Spec.ResHeaders, gen.HeaderKV{Name: "X-Variant", Values: []string{"a"}, Force: true}, gen.HeaderKV{Name: "x-variant", Values: []string{"b"}, Force: true})
-			if rapid.Bool().Draw(t, "third") {
-				c.Spec.ResHeaders = append(c.Spec.ResHeaders, gen.HeaderKV{Name: "X-VARIANT", Values: []string{"c"}, Force: true})
-			}
+	case 3:
+		c.Colliding = true
+		for i := 0; i < 8; i++ {
+			c.Spec.ResHeaders = append(c.Spec.ResHeaders, gen.HeaderKV{Name: fmt.Sprintf("X-Pad-%d", i), Values: []string{"p"}})
 		}
-		return c
-	})
+		c.Spec.ResHeaders = append(c.Spec.ResHeaders, gen.HeaderKV{Name: "X-Variant", Values: []string{"a"}, Force: true}, gen.HeaderKV{Name: "x-variant", Values: []string{"b"}, Force: true})
+		if rapid.Bool().Draw(t, "third") {
+			c.Spec.ResHeaders = append(c.Spec.ResHeaders, gen.HeaderKV{Name: "X-VARIANT", Values: []string{"c"}, Force: true})
+		}
+	}
+	return c
 }
 
 // limitCases enumerates the cases at the format limits.
